@@ -62,9 +62,11 @@ ClientFresh(state, d) == \/ ("chal" \in d /\ state = "req")
                          \/ ("ka" \in d /\ state \in {"resp", "conn"})
                          \/ ("payload" \in d /\ state = "conn")
 
-ClientStep(i, pass) ==
+\* what the relay did with the datagrams queued towards an endpoint since its last step: "pass" (they reach its socket),
+\* "drop", or "hold" (no relay action yet: they stay queued; the closed model never holds, recorded traces may)
+ClientStep(i, mode) ==
     /\ Can
-    /\ LET arrived == IF pass THEN down[i] ELSE {} IN
+    /\ LET arrived == IF mode = "pass" THEN down[i] ELSE {} IN
        IF cn[i] = "disc" THEN
             \* netcode already disconnected: the renet client is marked disconnected, nothing else happens
             /\ cr' = [cr EXCEPT ![i] = "disc"] /\ UNCHANGED <<cn, up, cq, tout>>
@@ -83,8 +85,8 @@ ClientStep(i, pass) ==
                /\ up' = [up EXCEPT ![i] = @ \cup out]
                /\ cq' = [cq EXCEPT ![i] = age]
                /\ tout' = IF timedOut THEN tout \cup {i} ELSE tout
-    /\ down' = [down EXCEPT ![i] = {}]
-    /\ Rec(<<[a |-> "relay", c |-> i, dir |-> "down", ops |-> <<IF pass THEN "pass" ELSE "drop">>], [a |-> "cstep", c |-> i, dt |-> StepDt]>>)
+    /\ down' = [down EXCEPT ![i] = IF mode = "hold" THEN @ ELSE {}]
+    /\ Rec(<<[a |-> "relay", c |-> i, dir |-> "down", ops |-> <<mode>>], [a |-> "cstep", c |-> i, dt |-> StepDt]>>)
     /\ Tick /\ UNCHANGED <<sn, sr, evq, seen, asked, sq>>
 
 (***************************************************************************)
@@ -118,26 +120,29 @@ ServerOne(i, arrived, s) ==
         ev2 == IF push THEN <<[type |-> "Disconnected", id |-> i]>> ELSE <<>>
         out == (IF s.sn[i] = "none" /\ n1 = "pending" THEN {"chal"} ELSE {})
                \cup (IF s.sn[i] = "pending" /\ "req" \in arrived /\ n1 = "pending" THEN {"chal"} ELSE {})
-               \cup (IF n2 = "conn" THEN {"ka", "payload"} ELSE {})
+               \* update_client sends the keep-alive that is due before the renet disconnections are pushed down; payloads are
+               \* generated afterwards, for the sessions that are left
+               \cup (IF n1t = "conn" THEN {"ka"} ELSE {})
+               \cup (IF n2 = "conn" THEN {"payload"} ELSE {})
                \cup (IF push \/ timedOut THEN {"disconnect"} ELSE {})
     IN [sn |-> [s.sn EXCEPT ![i] = n2], sr |-> [s.sr EXCEPT ![i] = r2], evq |-> s.evq \o ev1 \o ev1t \o ev2,
         down |-> [s.down EXCEPT ![i] = @ \cup out], sq |-> [s.sq EXCEPT ![i] = IF n2 = "conn" THEN age ELSE 0],
         tout |-> IF timedOut THEN s.tout \cup {i} ELSE s.tout]
 
 RECURSIVE ServerAll(_, _, _)
-ServerAll(ids, pass, s) ==
+ServerAll(ids, mode, s) ==
     IF ids = {} THEN s
     ELSE LET i == CHOOSE x \in ids : TRUE IN
-         ServerAll(ids \ {i}, pass, ServerOne(i, IF pass[i] THEN up[i] ELSE {}, s))
+         ServerAll(ids \ {i}, mode, ServerOne(i, IF mode[i] = "pass" THEN up[i] ELSE {}, s))
 
-ServerStep(pass) ==
+ServerStep(mode) ==
     /\ Can
-    /\ LET s == ServerAll(Ids, pass, [sn |-> sn, sr |-> sr, evq |-> evq, down |-> down, sq |-> sq, tout |-> tout]) IN
+    /\ LET s == ServerAll(Ids, mode, [sn |-> sn, sr |-> sr, evq |-> evq, down |-> down, sq |-> sq, tout |-> tout]) IN
        /\ sn' = s.sn /\ sr' = s.sr /\ evq' = s.evq /\ down' = s.down /\ sq' = s.sq /\ tout' = s.tout
-    /\ up' = [i \in Ids |-> {}]
+    /\ up' = [i \in Ids |-> IF mode[i] = "hold" THEN up[i] ELSE {}]
     /\ Rec([k \in 1..Cardinality(Ids) |->
               LET i == CHOOSE x \in Ids : Cardinality({y \in Ids : y < x}) = k - 1 IN
-              [a |-> "relay", c |-> i, dir |-> "up", ops |-> <<IF pass[i] THEN "pass" ELSE "drop">>]]
+              [a |-> "relay", c |-> i, dir |-> "up", ops |-> <<mode[i]>>]]
            \o <<[a |-> "sstep", dt |-> StepDt]>>)
     /\ Tick /\ UNCHANGED <<cn, cr, seen, asked, cq>>
 
@@ -162,8 +167,8 @@ Disc(i, who) ==
     /\ Rec(<<[a |-> "disc", c |-> i, who |-> who]>>)
     /\ UNCHANGED <<sn, down, evq, seen, cq, sq, tout>>
 
-Next == \/ \E i \in Ids : \E pass \in BOOLEAN : ClientStep(i, pass)
-        \/ \E pass \in [Ids -> BOOLEAN] : ServerStep(pass)
+Next == \/ \E i \in Ids : \E mode \in {"pass", "drop"} : ClientStep(i, mode)
+        \/ \E mode \in [Ids -> {"pass", "drop"}] : ServerStep(mode)
         \/ ReadEvent
         \/ \E i \in Ids : \E who \in {"server", "client", "client_transport"} : Disc(i, who)
 
